@@ -37,6 +37,8 @@ LOSS_NODES = [9, 11, 18]
 
 def make_agg(kind: str, rows: int, dtype):
     from torchjd.aggregation import Constant, Krum, TrimmedMean
+    if kind.startswith("constant_on_"):          # a valid aggregator; the Jacobian it is handed is not finite
+        kind = "constant"
     if kind == "constant":
         return Constant(torch.tensor([float(r - 1) for r in range(rows)], dtype=dtype))
     if kind == "constant_wrong_len":
@@ -73,6 +75,10 @@ def run_scenario(item) -> dict:
     rng = random.Random(seed * 13 + idx)
     dtype = torch.float32 if idx % 5 == 0 else torch.float64
     prog = _STATE["prog"]
+    if scn["agg"].startswith("constant_on_"):    # the first entry of leaf b (node 2) is nan / +inf / -inf
+        bad = {"nan": float("nan"), "inf": float("inf"), "ninf": float("-inf")}[scn["agg"][len("constant_on_"):]]
+        prog = [dict(nd) for nd in prog]
+        prog[1]["val"] = [bad] + list(prog[1]["val"][1:])
     B = Built(prog, dtype=dtype, rng=rng, scalars=LOSS_NODES,
               nonscalars=[l for l in scn.get("losses", []) if l not in LOSS_NODES] if scn["fault"] == "nonscalar_loss" else ())
     leaves = [l for l in B.leaves() if prog[l - 1]["rg"]]
